@@ -20,6 +20,8 @@ def c02cipher (a : List String) (obs : String) : String × String :=
   | _ => ("BADOP", "skip")
 
 def mkSrc2 (hex k fin : String) : Src :=
+  -- a leading "b": the harness gives the source a bufio-style Discard method; same byte stream
+  let fin := if fin.startsWith "b" then (fin.drop 1).toString else fin
   { chunks := chunksOf (natOr k) (hexOr hex), fin := if fin.startsWith "F" then .fail else .eof,
     dataWithFin := fin.endsWith "d" }
 
@@ -46,6 +48,35 @@ def c02crd (a : List String) (obs : String) : String × String :=
     let model := crdLoop ⟨mk, 0⟩ s sz 0 []
     let exp := Bytes.toHex (xorSpec (hexOr hex) mk 0) ++ " " ++ (if fin.startsWith "F" then "fail" else "eof")
     (model, if obs == exp then "ok" else s!"bad:expected:{exp.take 80}")
+  | _ => ("BADOP", "skip")
+
+partial def crcCopy (c : CipherRd) (s : Src) (i : Nat) (acc : Bytes) : String :=
+  if i ≥ 100000 then Bytes.toHex acc ++ " LOOP" else
+  match c.read s 32768 with      -- io.Copy's buffer
+  | (none, _, _, _) => "PANIC"
+  | (some out, some e, _, _) => Bytes.toHex (acc ++ out) ++ " copy:" ++ (if e == .eof then "nil" else finStr e)
+  | (some out, none, c', s') => crcCopy c' s' (i + 1) (acc ++ out)
+
+def crcHeads (c : CipherRd) (s : Src) : List Nat → Bytes → String
+  | [], acc => crcCopy c s 0 acc
+  | k :: ks, acc =>
+    match c.read s k with
+    | (none, _, _, _) => "PANIC"
+    | (some out, some e, _, _) => Bytes.toHex (acc ++ out) ++ " " ++ finStr e
+    | (some out, none, c', s') => crcHeads c' s' ks (acc ++ out)
+
+def c02crc (a : List String) (obs : String) : String × String :=
+  match a with
+  | [hex, m, k, heads, fin] =>
+    let s := mkSrc2 hex k fin
+    let mk := parseMask m
+    let model := crcHeads ⟨mk, 0⟩ s ((parseInts heads).map Int.toNat) []
+    let data := Bytes.toHex (xorSpec (hexOr hex) mk 0)
+    let ends := if fin.startsWith "F" then ["fail", "copy:fail"] else ["eof", "copy:nil"]
+    let verdict := match obs.splitOn " " with
+      | [d, e] => if d != data then "bad:bytes-differ-from-§5.3-XOR" else if ends.contains e then "ok" else s!"bad:end:{e}"
+      | _ => "bad:format"
+    (model, verdict)
   | _ => ("BADOP", "skip")
 
 def cwrLoop (c : CipherWr) : List (Bytes × Int) → Bytes → List String → Bytes × List String
